@@ -19,6 +19,10 @@ def sh(cmd, timeout=5400):
 
 assert sh('git -C %s status --porcelain --untracked-files=no' % repo)[1].strip() == '', repo + ' not clean'
 rc, out = sh('git -C %s apply %s/patch.diff' % (repo, d))
+if rc != 0:
+    # the tree was repaired around the lines the change touches: apply with offsets / fuzz (the stored patch stays as it was written)
+    rc, out = sh('patch -p1 -F3 -s --no-backup-if-mismatch -d %s < %s/patch.diff' % (repo, d))
+    meta['applied_with_fuzz'] = rc == 0
 assert rc == 0, out
 results = {}
 try:
